@@ -46,7 +46,7 @@ impl Fp {
 			lines: self
 				.lines
 				.iter()
-				.filter(|(k, _)| prefixes.iter().any(|p| k.starts_with(p)))
+				.filter(|(k, _)| prefixes.iter().any(|p| *k == p || (p.ends_with('.') && k.starts_with(p))))
 				.map(|(k, v)| (k.clone(), v.clone()))
 				.collect(),
 		}
